@@ -65,6 +65,10 @@ if VARIANT == "8":
     base = base.replace("Think of plausible developer mistakes:", "Both changes must be STRUCTURAL: a plausible refactoring or small feature of 10-40 changed lines that MOVES or RESHAPES logic - extracting a helper or inlining one,\nmerging or splitting branches, replacing a loop by a comprehension / library call (or the reverse), changing a data structure (list -> dict, set -> list, tuple -> dataclass),\nintroducing early returns or guard clauses, hoisting a computation out of a loop or a lock, moving work from a constructor to first use, adding an optional\nparameter with a default, batching or caching something - and that breaks the property only as a side effect, in a corner the refactoring overlooked. A reviewer\nskimming the diff should find it reasonable. Think of plausible developer mistakes:")
     base = base.replace("Keep each change small (a few lines). ", "")
     base = base.replace("  {wt}/_out/m2/...  and  {wt}/_out/m3/...   (same for changes 2 and 3)", "  {wt}/_out/m2/...   (same for change 2)").replace("If after honest effort you\ncan only produce two, deliver two. ", "Never use `git stash` (other worktrees share it): switch with `git diff -- src > /tmp/<unique>.diff; git checkout -- src; ...; git apply /tmp/<unique>.diff`. ")
+if VARIANT == "9":
+    base = base.replace("Produce THREE independent, realistic changes", "Produce TWO independent, realistic changes").replace("(three different mechanisms at three different code\nsites; at least one of them", "(two different mechanisms; at least one of them")
+    base = base.replace("Think of plausible developer mistakes:", "Each change must consist of TWO OR MORE COOPERATING EDITS in different functions (preferably different files or classes), such that EACH EDIT ALONE\nkeeps the property (and the tests) intact and only their COMBINATION breaks it - e.g. a caller that stops passing a flag plus a callee whose default for it changed; a producer that\nrelaxes an invariant plus a consumer that starts relying on it; a constant changed in one module plus a comparison against it in another; a field made optional plus a reader\nthat treats absent as a value; a lock scope narrowed in one method plus an unlocked read added in another. State in meta.json (field \"edits\") the list of edits and why each alone is harmless.\nThink of plausible developer mistakes:")
+    base = base.replace("  {wt}/_out/m2/...  and  {wt}/_out/m3/...   (same for changes 2 and 3)", "  {wt}/_out/m2/...   (same for change 2)").replace("If after honest effort you\ncan only produce two, deliver two. ", "Verify ALSO that each edit alone leaves your demo passing. Never use `git stash`: switch with `git diff -- src > /tmp/<unique>.diff; git checkout -- src; ...; git apply /tmp/<unique>.diff`. ")
 for l in open('/verif/properties.jsonl'):
     p = json.loads(l)
     wt = f"{root}/{p['id']}"
